@@ -62,9 +62,16 @@ def run(ctx):
                            "first_difference": {"case": mism[0][0], "implementation": mism[0][1], "model": mism[0][2]}}, found_input=False)
         if not proof_ok:
             ctx.violation("proof obligations of Properties_C01.v do not check", {"broken": "Properties_C01.v", "detail": proof}, found_input=False)
+    # the CLOSED model (order computed by CellOrder.cell_order): exact tie with the real computeCellOrder (tag OR)
+    from checks import c11_order
+    ores = c11_order.run_order(ctx, 3000 if ctx.quick else 100000, ctx.seed + 57, corpus_prop="C01")
+    if not ofail:
+        c11_order.report(ctx, ores)
     cov = dict(proof)
     dist = lc.distribution(run)
-    cov.update({"trusted_base": common.TRUSTED_BASE + ["computeCellOrder's float key is not modelled: the model is run with the implementation's order (theorems hold for every order)"],
+    cov.update({"closed_model_order_tie": c11_order.summary(ores),
+                "trusted_base": common.TRUSTED_BASE + ["computeCellOrder: the order-parametric theorems hold for every order (the model is run with the implementation's order); the closed-model theorems "
+                                                        "(c01_legalize_real_*) use the rational model of the key, tied exactly where the binary32 evaluation is exact (tag OR)"],
                 "evaluations": len(run.lines), "distinct_nontrivial": len(nontriv),
                 "rule": "seeded random circuits: 1-6 rows (split segments, y gaps, N/S/FN/FS patterns, shuffled), 1-12 cells (1-3 rows high, 8 orientations for "
                         "polarity-free cells, all polarities, fixed cells of any size with both obstruction flags), targets inside/near/far, utilisation 30-110%, "
@@ -80,6 +87,9 @@ def run(ctx):
 def replay(ctx, path):
     r = json.load(open(path))["replay"]
     case = r.get("case") or r["first_difference"]["case"]
+    if case.startswith("OR "):
+        from checks import c11_order
+        return c11_order.replay_case(case)
     class R(lc.LegalRun):
         def __init__(self, ctx):
             self.ctx = ctx
